@@ -97,6 +97,8 @@ var fnTargets = []*fnTarget{
 	{fn: "data/ethereum.Tracker.GetVotes", name: "trackerGetVotes"},
 	{fn: "data/ethereum.Tracker.Finalized", name: "trackerFinalized"},
 	{fn: "data/ethereum.Tracker.Failed", name: "trackerFailed"},
+	// C17 intrinsic gas (whole: the byte loop becomes a fold)
+	{fn: "vm.IntrinsicGas", name: "olvmIntrinsicGas"},
 	// C17 OLVM gas money
 	{fn: "vm.StateTransition.gasUsed", name: "olvmGasUsed"},
 	{fn: "vm.StateTransition.buyGas", name: "olvmBuyGasCost", leaf: "mgval", inline: []string{"mgval"}},
@@ -129,6 +131,7 @@ type fctx struct {
 	mutated     []string // receiver fields assigned (pointer receiver)
 	recv        string
 	dropped     []string
+	listVars    map[string]bool // parameters / fields taken as lists (ranged slices)
 	scalarsOnly bool
 	skipped     []string
 	mutTypes    map[string]string
@@ -396,7 +399,8 @@ func (c *fctx) binary(x *ast.BinaryExpr) (string, string) {
 			}
 			return "(!" + a + ")", "B"
 		}
-		if _, isPtr := t.(*types.Pointer); isPtr {
+		_, isSliceT := t.Underlying().(*types.Slice)
+		if _, isPtr := t.(*types.Pointer); isPtr || isSliceT {
 			p := c.param(plain(x.X)+"_nil", "Bool")
 			if x.Op == token.EQL {
 				return p, "B"
@@ -448,6 +452,9 @@ func (c *fctx) call(x *ast.CallExpr) (string, string) {
 		return "0", "I"
 	}
 	if id, ok := x.Fun.(*ast.Ident); ok && id.Name == "len" && len(x.Args) == 1 {
+		if n := sanitize(plain(x.Args[0])); c.listVars[n] {
+			return "(Int.ofNat " + n + ".length)", "I"
+		}
 		return c.param("len_"+plain(x.Args[0]), "Int"), "I"
 	}
 	f := c.callee(x)
@@ -827,7 +834,11 @@ func (c *fctx) block(stmts []ast.Stmt, rest func(string) string, ind string) str
 			c.fail("unsupported loop body in range over " + plain(x.X))
 			return next()
 		}
-		xs := c.param(plain(x.X), "List "+leanTyp(ek))
+		xs := sanitize(plain(x.X))
+		if !c.listVars[xs] {
+			xs = c.param(plain(x.X), "List "+leanTyp(ek))
+			c.listVars[xs] = true
+		}
 		tuple := accs[0]
 		if len(accs) > 1 {
 			tuple = "(" + strings.Join(accs, ", ") + ")"
@@ -922,7 +933,7 @@ func (c *fctx) block(stmts []ast.Stmt, rest func(string) string, ind string) str
 
 func (t *fnTarget) translateFn(fd *ast.FuncDecl, pkg *packages.Package, byObj map[*types.Func]*fnTarget) {
 	t.found = true
-	c := &fctx{info: pkg.TypesInfo, pkg: pkg, seen: map[string]bool{}, locals: map[string]bool{}, byObj: byObj, scalarsOnly: t.scalarsOnly}
+	c := &fctx{info: pkg.TypesInfo, pkg: pkg, seen: map[string]bool{}, locals: map[string]bool{}, byObj: byObj, scalarsOnly: t.scalarsOnly, listVars: map[string]bool{}}
 	src := ""
 	if t.leaf != "" {
 		// the last assignment to the leaf, with earlier assignments to the inlined names substituted
@@ -1092,8 +1103,28 @@ func (t *fnTarget) translateFn(fd *ast.FuncDecl, pkg *packages.Package, byObj ma
 			}
 		}
 	}
+	rangedParams := map[string]bool{}
+	ast.Inspect(fd.Body, func(n ast.Node) bool {
+		if rs, ok := n.(*ast.RangeStmt); ok {
+			if id, ok := rs.X.(*ast.Ident); ok {
+				rangedParams[id.Name] = true
+			}
+		}
+		return true
+	})
 	for _, p := range fd.Type.Params.List {
 		k := kindOf(c.typeOf(p.Type))
+		if sl, ok := c.typeOf(p.Type).Underlying().(*types.Slice); ok {
+			ek := kindOf(sl.Elem())
+			for _, n := range p.Names {
+				if rangedParams[n.Name] && (ek == "I" || ek == "B") {
+					declared = append(declared, fparam{sanitize(n.Name), "List " + leanTyp(ek)})
+					c.listVars[sanitize(n.Name)] = true
+				}
+				// a slice that is not ranged over is only asked for its length or for nil: parameters of their own
+			}
+			continue
+		}
 		for _, n := range p.Names {
 			if k == "" || k == "E" {
 				if !t.scalarsOnly {
